@@ -236,7 +236,7 @@ func TestC05_PassthroughRandom(t *testing.T) {
 		}
 		return b.String()
 	})
-	runRapid(t, c, 30000, 100000, func(rt *rapid.T) {
+	runRapid(t, c, 30000, 300000, func(rt *rapid.T) {
 		c05CheckText(rt, c, gen.Draw(rt, "src"), false)
 	})
 }
@@ -300,7 +300,7 @@ func TestC05_Comments(t *testing.T) {
 		}
 	})
 	c.ExhaustivePart(fmt.Sprintf("comment bodies of up to %d pieces x 3 pre x %d post", maxLen, len(c05TextAround)))
-	runRapid(t, c, 20000, 60000, func(rt *rapid.T) {
+	runRapid(t, c, 20000, 180000, func(rt *rapid.T) {
 		body := strings.Join(rapid.SliceOfN(rapid.SampledFrom(c05CommentBodyPieces), 0, 12).Draw(rt, "body"), "")
 		pre := rapid.SampledFrom(c05TextAround).Draw(rt, "pre")
 		post := rapid.SampledFrom(c05TextAround).Draw(rt, "post")
@@ -470,7 +470,7 @@ func TestC05_Splice(t *testing.T) {
 	c := harness.New(t, "C05", "splice",
 		"random templates made of adversarial text runs (starting with }}, }, ), --}}; escapes; multi-byte; CRLF) spliced around {{ literal }}, @if/@else/@end with literal conditions, @each over literal arrays and comments, nested to depth 2; output must be the concatenation of the text runs (minus escape backslashes) and the blocks' known outputs. Cases in which the reference scanner says a text run would merge with a neighbouring construct are skipped. Non-trivial: >= 1 construct and a text run that contains one of @ \\ { } ) or non-ASCII directly after a construct. Distinct by hash of the source.")
 	defer c.Finish()
-	runRapid(t, c, 40000, 120000, func(rt *rapid.T) {
+	runRapid(t, c, 40000, 360000, func(rt *rapid.T) {
 		items := genSpliceItems(2).Draw(rt, "items")
 		o := &spliceOut{marks: map[int]string{}}
 		want := spliceRender(items, o)
